@@ -471,6 +471,30 @@ def step (vt : VTState) (b : UInt8) : VTState :=
 /-- Interpret a byte string. -/
 def run (bytes : List UInt8) (vt : VTState) : VTState := bytes.foldl step vt
 
+/-! ### Window resize
+
+  The reference terminal's choice (DEC STD 070 does not define a resize; xterm does much the same): no reflow; rows
+  and columns are anchored at the top left; a cell inside both the old and the new screen keeps its content, every
+  other cell of the new screen shows `fresh` (whatever the emulator paints there — the correspondence driver uses
+  distinct glyphs so that a misplaced cell is visible); the cursor is clamped into the new screen and a pending wrap
+  is dropped; the scrolling margins are reset to the whole new screen; DECLRMM, the rendering attributes and the
+  tokenizer state are untouched. -/
+
+def VTState.resize (vt : VTState) (lines cols : Int) (fresh : Int → Int → Cell) : VTState :=
+  { vt with lines := lines, cols := cols,
+            grid := fun l c => if l < vt.lines ∧ c < vt.cols then vt.grid l c else fresh l c,
+            row := max 0 (min vt.row (lines - 1)), col := max 0 (min vt.col (cols - 1)), pendingWrap := false,
+            top := 0, bottom := lines - 1, left := 0, right := cols - 1 }
+
+/-! ### DECRPM: what the reply `CSI ? 69 ; v $ y` says about DECLRMM (DEC STD 070: 0 = mode not recognised,
+    1 = set, 2 = reset, 3 = permanently set, 4 = permanently reset) -/
+
+/-- DECLRMM is set in a terminal that reports `v` for mode 69. -/
+def declrmmOfReply (v : Nat) : Bool := v = 1 ∨ v = 3
+
+/-- The terminal will not change the mode on `CSI ? 69 h / l` (not recognised, or permanent). -/
+def modeLockedOfReply (v : Nat) : Bool := ¬ (v = 1 ∨ v = 2)
+
 /-! ### Tabulation (execution speed only): re-tabulate the grid function into an array -/
 
 def VTState.compact (vt : VTState) : VTState :=
